@@ -462,3 +462,55 @@ Proof.
   rewrite (days_from_civil_day y' m' (Z.min d (days_in_month y' m'))).
   assert (0 < DAY) by reflexivity. nia.
 Qed.
+
+(* ==================================================================================== *)
+(* 6. the remote existence filter                                                        *)
+(* ==================================================================================== *)
+
+(* what is really stored, and listings that - when they succeed - are complete *)
+Record truth := { t_hours : list Z; t_days : list Z }.
+
+Definition faithful (rw : remote) (tr : truth) : Prop :=
+  (forall d hs, ld_day rw d = Some hs -> forall h, h / 24 = d -> In h (t_hours tr) -> In h hs) /\
+  (forall mk ds, ld_month rw mk = Some ds -> forall d, month_key d = mk -> In d (t_days tr) -> In d ds) /\
+  (forall d b, lf_day rw d = Some b -> In d (t_days tr) -> b = true).
+
+Lemma memZ_In : forall x l, In x l -> memZ x l = true.
+Proof. intros x l H. unfold memZ. apply existsb_exists. exists x. split; [exact H|apply Z.eqb_refl]. Qed.
+
+(* an hour partition that holds files is never dropped - whether its parent listing succeeded or failed *)
+Lemma remote_keeps_hour : forall rw tr ps h,
+  faithful rw tr -> In h (t_hours tr) -> In (PHour h) ps -> In (PHour h) (filter_remote rw ps).
+Proof.
+  intros rw tr ps h [Hd _] Hin Hp. unfold filter_remote. apply filter_In. split; [exact Hp|].
+  unfold keep_remote, dir_exists. rewrite andb_true_r.
+  destruct (ld_day rw (h / 24)) as [hs|] eqn:E; [|reflexivity].
+  apply memZ_In. eapply Hd; eauto.
+Qed.
+
+(* a day partition that holds daily files is kept, whatever call fails *)
+Lemma remote_keeps_day : forall rw tr ps d,
+  faithful rw tr -> In d (t_days tr) -> In (PDay d) ps -> In (PDay d) (filter_remote rw ps).
+Proof.
+  intros rw tr ps d [_ [Hm Hl]] Hin Hp. unfold filter_remote. apply filter_In. split; [exact Hp|].
+  unfold keep_remote, dir_exists. apply andb_true_iff. split.
+  - destruct (ld_month rw (month_key d)) as [ds|] eqn:E; [|reflexivity].
+    apply memZ_In. eapply Hm; eauto.
+  - destruct (lf_day rw d) as [b|] eqn:E; [|reflexivity]. eapply Hl; eauto.
+Qed.
+
+(* the world built from stored partitions and fault sets is faithful *)
+Lemma remote_of_faithful : forall x, faithful (remote_of x) {| t_hours := rw_hours x; t_days := rw_days x |}.
+Proof.
+  intros x. unfold faithful, remote_of. cbn [ld_day ld_month lf_day t_hours t_days]. repeat split.
+  - intros d hs H h Hh Hin. destruct (memZ d (rw_fail_day x)); [discriminate|]. injection H as H. subst hs.
+    apply in_map_iff. exists (h / 24, h). split; [reflexivity|].
+    apply filter_In. split; [|apply Z.eqb_eq; exact Hh].
+    apply in_map_iff. exists h. split; [reflexivity|exact Hin].
+  - intros mk ds H d Hk Hin. destruct (memZ mk (rw_fail_month x)); [discriminate|]. injection H as H. subst ds.
+    apply in_map_iff. exists (month_key d, d). split; [reflexivity|].
+    apply filter_In. split; [|apply Z.eqb_eq; exact Hk].
+    apply in_map_iff. exists d. split; [reflexivity|apply in_or_app; left; exact Hin].
+  - intros d b H Hin. destruct (memZ d (rw_fail_list x)); [discriminate|]. injection H as H. subst b.
+    apply memZ_In. exact Hin.
+Qed.
